@@ -286,7 +286,7 @@ def sensors_trace(beh: dict) -> list[dict]:
 # ------------------------------------------------------------------ SerialMonitor
 # str(value) -> Python values with that rendering (the harness computes str() with CPython, the reference)
 VALUES = [0, 42, "42", Fraction(42), 2.5, "2.5", True, "True", None, "None", "hi", "a\nb", "é", [1, 2], "[1, 2]", -7, "-7", "",
-          0.1, "x" * 70, b"raw", 10 ** 12, float("inf"), ("t", 1)]
+          0.1, "x" * 70, b"raw", 10 ** 12, float("inf"), ("t", 1), "l\n", "\n", "a\r\n", "\r"]
 BY_TEXT: dict[bytes, list] = {}
 for _v in VALUES:
     BY_TEXT.setdefault(str(_v).encode("utf-8"), []).append(_v)
